@@ -1018,6 +1018,8 @@ class Interp:
         return mk(z3.Not(v.t), 'bool')
 
     def identical(self, a, b):
+        a = getattr(a, 'orig', None) or a
+        b = getattr(b, 'orig', None) or b
         if isinstance(a, SymVal) and isinstance(b, SymVal):
             if a.k != b.k:
                 return False
@@ -1412,6 +1414,20 @@ class Interp:
                 return obj[self.concrete_slice(idx)]
             return obj[self.norm_index(idx, len(obj))]
         if isinstance(obj, PyDict):
+            if self.spec_mode and isinstance(idx, (SymVal, CharStr)):
+                # specification-level lookup with a symbolic key: if-then-else chain over the entries
+                res = None
+                for k_, v_ in reversed(list(self.read_dict(obj).items())):
+                    c_ = self.truth_term(self.equals(k_, idx))
+                    if c_ is True:
+                        res = v_
+                    elif c_ is False:
+                        continue
+                    else:
+                        res = v_ if res is None else self.ite(c_, v_, res)
+                if res is None and not self.read_dict(obj):
+                    self.raise_builtin('KeyError', 'key')
+                return res
             return self.dict_get(obj, idx, raise_missing=True)
         if isinstance(obj, str):
             if isinstance(idx, slice):
@@ -1933,13 +1949,18 @@ class Interp:
             return v
         sv = snap[id(v)]
         if isinstance(v, SymSeq):
-            return SymSeq(sv[0], sv[1], v.ek, v.cls)
+            n = SymSeq(sv[0], sv[1], v.ek, v.cls)
+            n.orig = v
+            return n
         if isinstance(v, PyList):
             n = PyList(list(sv), v.cls)
             n.is_deque = v.is_deque
+            n.orig = v
             return n
         if isinstance(v, PyDict):
-            return PyDict(dict(sv))
+            n = PyDict(dict(sv))
+            n.orig = v
+            return n
         if isinstance(v, SymSet):
             return SymSet(sv) if z3.is_expr(sv) else PySet(sv)
         if isinstance(v, PySet):
